@@ -136,6 +136,65 @@ pub fn var_llr_to_llr_i8(ty: &str, x: i16) -> String {
     with_i8!(ty, a => { let _ = &mut a; a.var_llr_to_llr(x).to_string() })
 }
 
+fn hx(x: f64) -> String {
+    format!("{:016x}", x.to_bits())
+}
+
+pub fn pairs_f(v: &[(usize, f64)]) -> String {
+    if v.is_empty() { "-".to_string() } else { v.iter().map(|(a, b)| format!("{}.{}", a, hx(*b))).collect::<Vec<_>>().join(",") }
+}
+
+pub fn check_f(ty: &str, msgs: &[(usize, f64)]) -> String {
+    let ty2 = ty.to_string();
+    let msgs = msgs.to_vec();
+    match guarded(move || {
+        let mut out: Vec<(usize, f64)> = Vec::new();
+        if ty2.ends_with("f64") {
+            let m: Vec<Message<f64>> = msgs.iter().map(|&(s, v)| Message { source: s, value: v }).collect();
+            with_f64!(ty2.as_str(), a => a.send_check_messages(&m, |s| out.push((s.dest, s.value))));
+        } else {
+            let m: Vec<Message<f32>> = msgs.iter().map(|&(s, v)| Message { source: s, value: v as f32 }).collect();
+            with_f32!(ty2.as_str(), a => a.send_check_messages(&m, |s| out.push((s.dest, s.value as f64))));
+        }
+        out
+    }) {
+        Ok(o) => pairs_f(&o),
+        Err(_) => "panic".to_string(),
+    }
+}
+
+pub fn var_f(ty: &str, input: f64, msgs: &[(usize, f64)]) -> String {
+    let ty2 = ty.to_string();
+    let msgs = msgs.to_vec();
+    match guarded(move || {
+        let mut out: Vec<(usize, f64)> = Vec::new();
+        let llr;
+        if ty2.ends_with("f64") {
+            let m: Vec<Message<f64>> = msgs.iter().map(|&(s, v)| Message { source: s, value: v }).collect();
+            llr = with_f64!(ty2.as_str(), a => a.send_var_messages(input, &m, |s| out.push((s.dest, s.value))));
+        } else {
+            let m: Vec<Message<f32>> = msgs.iter().map(|&(s, v)| Message { source: s, value: v as f32 }).collect();
+            llr = with_f32!(ty2.as_str(), a => a.send_var_messages(input as f32, &m, |s| out.push((s.dest, s.value as f64)))) as f64;
+        }
+        (llr, out)
+    }) {
+        Ok((llr, o)) => format!("{} {}", hx(llr), pairs_f(&o)),
+        Err(_) => "panic".to_string(),
+    }
+}
+
+fn rand_f(rng: &mut Rng, ty: &str, style: usize) -> f64 {
+    let range = if ty.ends_with("f64") { 30.0 } else { 14.0 };
+    let mag = match style {
+        0 => range * rng.f64_unit(),
+        1 => 3.0 * rng.f64_unit(),
+        2 => *rng.pick(&[0.0, 1e-300, 1e-30, 1e-12, 0.5, 1.0, 2.0]),
+        _ => range * rng.f64_unit() * rng.f64_unit(),
+    };
+    let v = if rng.chance(1, 2) { -mag } else { mag };
+    if ty.ends_with("f32") { (v as f32) as f64 } else { v }
+}
+
 fn rand_i8(rng: &mut Rng, style: usize) -> i8 {
     match style {
         0 => (rng.below(255) as i64 - 127) as i8,                  // uniform in [-127,127]
@@ -202,6 +261,20 @@ pub fn run_c04(ctx: &mut Ctx, replay: Option<&[String]>) {
         let m = gen_msgs(&mut rng, deg);
         let tag = if deg < 2 { "i8-degree-0-1-panics" } else { "i8-degree-4..30" };
         ctx.emit(&format!("c04 i8 {} {}", ty, msgs_str(&m)), &check_i8(ty, &m), deg >= 2, &[tag]);
+    }
+    // the 8 float types: working-range vectors, degrees 2..30
+    for k in 0..ctx.scale(24_000, 400_000) {
+        let ty = F_TYPES[k % 8];
+        let deg = if k % 100 == 0 { 1 } else { rng.range(2, if k % 4 == 0 { 30 } else { 8 }) };
+        let style = rng.below(4);
+        let mut srcs: Vec<usize> = (0..deg).map(|i| i * 2 + rng.below(2)).collect();
+        if rng.chance(1, 2) {
+            srcs.reverse();
+        }
+        // phi / tanh degree-1 checks do not panic (empty product / sum); min* ones do
+        let m: Vec<(usize, f64)> = srcs.into_iter().map(|s| (s, rand_f(&mut rng, ty, style))).collect();
+        let tag = if deg < 2 { "float-degree-1" } else if deg <= 8 { "float-degree-2..8" } else { "float-degree-9..30" };
+        ctx.emit(&format!("c04 f {} {}", ty, pairs_f(&m)), &check_f(ty, &m), deg >= 2, &[tag, ty]);
     }
 }
 
@@ -278,8 +351,14 @@ pub fn run_c05(ctx: &mut Ctx, _replay: Option<&[String]>) {
         ctx.emit(&format!("c05 l {} {} {}", ty, msgs_str(&msgs), ints(&vars.iter().map(|&x| x as i64).collect::<Vec<_>>())),
             &layer_i8(ty, &msgs, &vars), deg >= 2, &[tag]);
     }
-    let _ = (F_TYPES, );
+    // float variable rule: sum-then-subtract, degrees 0..40
+    for k in 0..ctx.scale(8000, 100_000) {
+        let ty = F_TYPES[k % 8];
+        let deg = rng.below(if k % 5 == 0 { 40 } else { 8 });
+        let style = rng.below(4);
+        let m: Vec<(usize, f64)> = (0..deg).map(|i| (i * 3 + 1, rand_f(&mut rng, ty, style))).collect();
+        let input = rand_f(&mut rng, ty, style);
+        ctx.emit(&format!("c05 vf {} {} {}", ty, hx(input), pairs_f(&m)), &var_f(ty, input, &m), deg >= 1, &["float-variable-rule", ty]);
+    }
 }
 
-#[allow(unused_macros)]
-macro_rules! _keep { () => { with_f64!("Phif64", a => { let _ = &mut a; }); with_f32!("Phif32", a => { let _ = &mut a; }); } }
